@@ -125,8 +125,9 @@ spec_drbg_reseed(struct spec_drbg * s, const uint8_t entropy_input[SPEC_SEEDLEN_
  *   5. returned_bits = leftmost (temp, requested_number_of_bits).
  *   6. (Key, V) = HMAC_DRBG_Update (additional_input = Null, Key, V).
  *   7. reseed_counter = reseed_counter + 1.
- * Used executable only in the bounded lockstep group (the unbounded statement is generate()'s contract, which
- * states the same steps at a ghost block index).  requested bytes <= 32 * nblocks_max.
+ * Reference text: the unbounded statement checked by the framework is generate()'s contract, which states the
+ * same steps at a ghost block index; this executable form (requested bytes <= 32 * nblocks_max) is kept for a
+ * bounded lockstep run and is not used by any group at present.
  */
 static void
 spec_drbg_generate(struct spec_drbg * s, uint8_t * returned, size_t nbytes, size_t nblocks_max)
